@@ -155,6 +155,35 @@ def run(prog, R):
     else:
         R.ob("ANCHOR", "switch case closure", False)
 
+    # each body has a scope of its own: between one enter_scope and its exit_scope at most one statement-list / body
+    # translation happens (then and else, or two cases, must not share a scope)
+    BODYLIKE = tuple(BODY_FNS) if not isinstance(BODY_FNS, (set, frozenset)) else tuple(BODY_FNS)
+    shared = []
+    ps_all, _ = paths(prog, s2s.npath)
+    for p in ps_all:
+        if "__diverged__" in p.env:
+            continue
+        depth, counts = 0, []
+        for nm, a_, bb_ in p.calls:
+            if nm == ENTER:
+                depth += 1
+                counts.append(0)
+            elif nm == EXIT and counts:
+                c_ = counts.pop()
+                depth -= 1
+                if c_ > 1:
+                    shared.append((str(arm_of(prog, p, STMT_ENUM, "stmt")), c_))
+            elif nm in BODYLIKE and counts:
+                counts[-1] += 1
+            elif counts:
+                # a body translated inside a closure handed to map / and_then / for_each within the scope
+                for a__ in a_:
+                    a__ = strip_transparent(a__) if isinstance(a__, tuple) else a__
+                    if isinstance(a__, tuple) and a__[0] == "closure":
+                        cb_ = prog.body(a__[1])
+                        if cb_ is not None and any((cb_.callee_of(t_) or "") in BODYLIKE for _, t_ in cb_.calls()):
+                            counts[-1] += 1
+    R.ob("C07.2-one-body-per-scope", "no two bodies are translated inside one enter/exit pair", not shared, s2s.at, f"{len(ps_all)} paths" if not shared else f"arms translating several bodies in one scope: {sorted(set(shared))[:3]}: declarations of one branch are visible (and clash) in the other")
     return_type_scope(prog, R, "C07.2-signature-scope")
     # ---- C07.3 declaration order
     cd = R.anchor(prog, S2S + "classical_declaration_statement_to_asg_stmt")
